@@ -693,7 +693,55 @@ fn interpreter_case(cfg: &RunCfg, rep: &mut Report, world: &World, i: u64) {
     let mut spk = target.spk.clone();
     let n_edits = if variant == 0 { 0 } else { 1 + rng.below(3) };
     for _ in 0..n_edits {
-        match rng.below(6) {
+        match rng.below(7) {
+            6 => {
+                // a tiny or truncated inner script that the output really commits to (P2SH, P2WSH or
+                // P2SH-P2WSH): the hash checks pass and the front end has to cope with the script
+                use bitcoin::hashes::{hash160, sha256, Hash};
+                let mut inner: Vec<u8> = match rng.below(12) {
+                    0 => vec![0x00],
+                    1 => vec![0x51],
+                    2 => vec![],
+                    3 => vec![0x00, 0x14],
+                    4 => vec![0x00, 0x20],
+                    5 => [vec![0x00, 0x14], vec![0x11; 19]].concat(),
+                    6 => [vec![0x00, 0x14], vec![0x11; 20]].concat(),
+                    7 => [vec![0x00, 0x20], vec![0x22; 31]].concat(),
+                    8 => [vec![0x51, 0x20], vec![0x33; 32]].concat(),
+                    9 => vec![0xac],
+                    10 => [vec![0x21], vec![0x02; 20]].concat(),
+                    _ => rbytes(&mut rng, 4),
+                };
+                if rng.chance(1, 6) {
+                    inner.push(rng.below(256) as u8);
+                }
+                let p2sh = |script: &[u8]| [vec![0xa9, 0x14], hash160::Hash::hash(script).to_byte_array().to_vec(), vec![0x87]].concat();
+                let p2wsh = |script: &[u8]| [vec![0x00, 0x20], sha256::Hash::hash(script).to_byte_array().to_vec()].concat();
+                match rng.below(3) {
+                    0 => {
+                        let mut s = vec![];
+                        for _ in 0..rng.below(3) {
+                            crate::refvm::script::push_minimal(&mut s, &rng.pick(&pool)[..]);
+                        }
+                        crate::refvm::script::push_minimal(&mut s, &inner);
+                        ss = s;
+                        spk = p2sh(&inner);
+                    }
+                    1 => {
+                        wit.push(inner.clone());
+                        ss = vec![];
+                        spk = p2wsh(&inner);
+                    }
+                    _ => {
+                        wit.push(inner.clone());
+                        let prog = p2wsh(&inner);
+                        let mut s = vec![];
+                        crate::refvm::script::push_minimal(&mut s, &prog);
+                        ss = s;
+                        spk = p2sh(&prog);
+                    }
+                }
+            }
             0 => wit = super::c13::mutate(&mut rng, &wit, &pool),
             1 if !wit.is_empty() => {
                 // drop or blank one element (the CHECKMULTISIG dummy, a signature, a branch selector)
